@@ -105,5 +105,33 @@ def run(run):
                 if hasattr(final, "known_divisions") and final.known_divisions and r[1].known_divisions and cname not in ("delayed-unknown-divisions",):
                     if tuple(final.divisions) != tuple(r[1].divisions) and final.npartitions == r[1].npartitions:
                         run.violation("%s: divisions %s differ from the uncut run %s" % (tag, r[1].divisions, final.divisions), {"kind": "cut-divisions", "program": gen.describe(prog), "cut": cname})
-    run.section("cuts", programs=n, cut_executions=ncut, node_kinds=kinds, cut_kinds=list(C))
+    # partition selections / order-sensitive continuations on the re-imported collection
+    import pandas as pd
+    pdf = pd.DataFrame({"a": range(24), "b": [i % 5 for i in range(24)]})
+    nsel = 0
+    for npart, unknown in ((4, False), (4, True), (3, False)):
+        base = rt.dx.from_pandas(pdf, npartitions=npart)
+        base = (base.clear_divisions() if unknown else base) + 1
+        for cname, cut in C.items():
+            cutc = try_(lambda: cut(base))
+            if cutc[0] == "raise":
+                run.violation("cut %s of a %d-partition frame raises %s" % (cname, npart, cutc[1]), {"kind": "cut-select", "cut": cname})
+                continue
+            sels = [[2, 0], list(range(npart))[::-1], [npart - 1, 1, npart - 1], [1], list(range(npart))]
+            conts = {"partitions": lambda x, sel: x.partitions[sel], "partitions+cumsum": lambda x, sel: x.partitions[sel].cumsum(),
+                     "elemwise+partitions": lambda x, sel: (x * 2).partitions[sel], "partitions.partitions": lambda x, sel: x.partitions[sel].partitions[[0]]}
+            for sel in sels:
+                for kn, k in conts.items():
+                    nsel += 1
+                    run.count(("cut-select", npart, unknown, cname, tuple(sel), kn))
+                    ref = try_(lambda: k(base, sel).compute())
+                    got = try_(lambda: k(cutc[1], sel).compute())
+                    if ref[0] == "raise":
+                        continue
+                    if got[0] == "raise":
+                        run.violation("cut %s then %s%s raises %s (uncut computes)" % (cname, kn, sel, got[1]), {"kind": "cut-select", "cut": cname, "sel": sel, "cont": kn})
+                    elif canon(got[1]) != canon(ref[1]):
+                        run.violation("cut %s then %s%s: %s differs from the uncut run %s" % (cname, kn, sel, _short(canon(got[1])), _short(canon(ref[1]))),
+                                      {"kind": "cut-select", "cut": cname, "sel": sel, "cont": kn, "npartitions": npart, "unknown_divisions": unknown})
+    run.section("cuts", programs=n, cut_executions=ncut, node_kinds=kinds, cut_kinds=list(C), selection_continuations=nsel)
     run.sample({"cut": "persist after step 1", "program": "v1=filter(t0,...); v2=assign(v1,...); v3=sum(v2)"})
